@@ -142,6 +142,7 @@ def task(args):
                 res.count("unspec:" + w)
         elif v == "crash":
             res.count("outcome:crash-left-to-C04")
+            res.sample({"crash_left_to_C04": text, "resp": d.get("resp")})
         else:
             res.inconclusive += 1
         if c < 1 and idx < 6:
